@@ -409,12 +409,15 @@ class CustomSD(BaseCorrelations):
                 tmp_temperature))
         self.temperature = tmp_temperature
 
-        self._cutoff_function = \
-            lambda omega: CUTOFF_DICT[self.cutoff_type](omega, self.cutoff)
-        self._spectral_density = \
-            lambda omega: self.j_function(omega) * self._cutoff_function(omega)
-
         super().__init__(name, description)
+
+    def _cutoff_function(self, omega: ArrayLike) -> ArrayLike:
+        """The cutoff function for the current cutoff and cutoff type. """
+        return CUTOFF_DICT[self.cutoff_type](omega, self.cutoff)
+
+    def _spectral_density(self, omega: ArrayLike) -> ArrayLike:
+        """The spectral density for the current parameters. """
+        return self.j_function(omega) * self._cutoff_function(omega)
 
     def __str__(self) -> Text:
         ret = []
@@ -754,6 +757,11 @@ class PowerLawSD(CustomSD):
                          temperature=temperature,
                          name=name,
                          description=description)
+
+    def _spectral_density(self, omega: ArrayLike) -> ArrayLike:
+        """The spectral density for the current parameters. """
+        return 2.0 * self.alpha * omega ** self.zeta \
+            * self.cutoff ** (1 - self.zeta) * self._cutoff_function(omega)
 
     def __str__(self) -> Text:
         ret = []
